@@ -1,4 +1,5 @@
 SPECIFICATION Spec
+CONSTANT Bar = FALSE
 CONSTANT Pop = "same"
 INVARIANT NeverOverlap
 CHECK_DEADLOCK FALSE
